@@ -51,15 +51,26 @@ void   mi_sim_lock_release(mi_sim_site_t* site, const char* func, void* lock);
 #undef  mi_atomic
 #define mi_atomic(name)  mi_sim_atomic_##name
 
+/* store-buffer mode (SimConfig.sb_p > 0): a store that is not seq_cst may stay in the storing thread's buffer past that thread's next
+   few atomic loads (store->load reordering, which x86-TSO and the C11 release/acquire orders both allow); the thread's own loads
+   are served from the buffer, every other scheduling point of the thread drains it first */
+extern int mi_sim_sb_active;
+bool   mi_sim_store_buffer(mi_sim_site_t* site, volatile void* addr, size_t size, uint64_t val);
+bool   mi_sim_load_forward(const volatile void* addr, uint64_t* val);
+
 #define mi_sim_atomic_load_explicit(p,mo) __extension__({ \
-  MI_SIM_SITE(MI_SIM_LOAD); __typeof__(p) _sp = (p); \
+  MI_SIM_SITE(MI_SIM_LOAD); __typeof__(p) _sp = (p); uint64_t _sfw = 0; \
   mi_sim_point(&_mi_site, __func__, (const volatile void*)_sp); \
-  atomic_load_explicit(_sp, mo); })
+  (mi_sim_sb_active && mi_sim_load_forward((const volatile void*)_sp, &_sfw)) \
+     ? (__typeof__(atomic_load_explicit(_sp, mo)))(uintptr_t)_sfw : atomic_load_explicit(_sp, mo); })
 
 #define mi_sim_atomic_store_explicit(p,x,mo) __extension__({ \
   MI_SIM_SITE(MI_SIM_STORE); __typeof__(p) _sp = (p); \
+  __typeof__(atomic_load_explicit(_sp, memory_order_relaxed)) _sv = (x); \
   mi_sim_point(&_mi_site, __func__, (const volatile void*)_sp); \
-  atomic_store_explicit(_sp, x, mo); })
+  if (!(mi_sim_sb_active && (mo) != memory_order_seq_cst && sizeof(*_sp) <= 8 && \
+        mi_sim_store_buffer(&_mi_site, (volatile void*)_sp, sizeof(*_sp), (uint64_t)(uintptr_t)_sv))) \
+    atomic_store_explicit(_sp, _sv, mo); })
 
 #define mi_sim_atomic_exchange_explicit(p,x,mo) __extension__({ \
   MI_SIM_SITE(MI_SIM_XCHG); __typeof__(p) _sp = (p); \
